@@ -117,6 +117,28 @@ def rule_offset_owner(ck):
         ck.ob("wmc.offset_owner", f"{key}/offset-of-the-same-address", ok, d, f.loc(c.bb), what="an address is converted to object-relative form with the mapping offset of a different address")
 
 
+def rule_registry_remove(ck):
+    """an unloaded library disappears from every view of the registry"""
+    prog = ck.prog
+    ck.rule("mpt.registry_remove", "DwarfRegistry::remove(path) takes the library out of every collection keyed by library path — the debug-information map `files` (what `sharedlib info`, the DAP modules list and every name / line lookup iterate), the mapping offsets and the address ranges: a library left in `files` after dlclose is still listed and still answers breakpoint requests with places that have no mapping")
+    R = "debugger::debugee::registry::DwarfRegistry"
+    f = ck.anchor(R + "::remove")
+    fs = prog.with_closures(f.path)
+    # path-keyed collections of the registry, from the ADT table: every field whose type mentions PathBuf, minus the
+    # scalar program_path
+    want = {"files": r"HashMap::<K, V, S(, A)?>::remove$", "mappings": r"HashMap::<K, V, S(, A)?>::remove$", "ranges": r"Vec::<T, A>::(retain|retain_mut|drain|remove|clear)$"}
+    for fld, rx in want.items():
+        hit = False
+        for g in fs:
+            for c in g.calls():
+                if re.search(rx, c.name) and ("." + fld) in expr_str(expr_of(g, c.args[0], depth=6), 6):
+                    hit = True
+        ck.ob("mpt.registry_remove", f"remove/clears-{fld}", hit, f"`{fld}` is not cleaned for the removed library", f.loc(), what=f"a library unloaded with dlclose stays in DwarfRegistry.{fld}")
+    # who decides the removal: the reload plan executed when the linker map changes calls remove for every to_del
+    callers = who_calls(prog, lambda c: c.name == R + "::remove")
+    ck.floor("mpt.registry_remove", "callers of DwarfRegistry::remove", len(callers), 1)
+
+
 def rule_linker_map(ck):
     prog = ck.prog
     ck.rule("mpt.linker_map", "entry-point stop: rendezvous created, registry refreshed, all breakpoints enabled, linker-map breakpoint installed at rendezvous().r_brk(); linker-map stop: registry refreshed in trace_until_stop, then (after stepping off) refresh_deferred in continue_execution; registry refresh = link_maps -> reload_plan -> remove/parse -> update_mappings")
@@ -216,5 +238,6 @@ def rule_region_lookup(ck):
 def run(ck):
     rule_kind(ck)
     rule_offset_owner(ck)
+    rule_registry_remove(ck)
     rule_linker_map(ck)
     rule_region_lookup(ck)
